@@ -54,6 +54,7 @@ func (r *intervalHistogramStream) worker(ctx context.Context, interval time.Dura
 			// the lock is requested and when the lock is obtained,
 			// the context has been canceled
 			if ctx.Err() != nil {
+				r.Unlock()
 				return
 			}
 			r.point.setTimestamp(r.started)
